@@ -76,7 +76,11 @@ DCAF = "py_Annotable_deep_copy_annotations_from"
 
 FILES = {"bm": ("datamodel", "basemodel.py"), "tm": ("datamodel", "taxonmodel.py"),
          "tr": ("datamodel", "treemodel", "_tree.py"), "tl": ("datamodel", "treecollectionmodel.py"),
-         "cm": ("datamodel", "charmatrixmodel.py")}
+         "cm": ("datamodel", "charmatrixmodel.py"),
+         # wave 7: the remaining files that define classes of copied structures (dispatch facts, part 3)
+         "nd": ("datamodel", "treemodel", "_node.py"), "ed": ("datamodel", "treemodel", "_edge.py"),
+         "bp": ("datamodel", "treemodel", "_bipartition.py"), "cs": ("datamodel", "charstatemodel.py"),
+         "ct": ("utility", "container.py")}
 
 
 def find_def(tree, name, cls):
@@ -632,4 +636,15 @@ def generate(repo):
             out.append("")
     from dv import c12_copyfacts
     out.append(c12_copyfacts.facts(trees))
+    out.append(c12_copyfacts.dispatch_facts(trees))
     return "\n".join(out)
+
+
+def class_kinds(repo):
+    """{class name: (model kind as the dumper names it, class whose __deepcopy__ it resolves to | None)} from the
+    source (the harness compares it with what the running library dispatches to)"""
+    from dv import c12_copyfacts
+    table, _definers = c12_copyfacts.dispatch_table(parse(repo))
+    names = {"KAnnotable": "annotable", "KAnnSet": "annset", "KTaxon": "taxon", "KNamespace": "namespace",
+             "KAtomic": "atomic", "KCDict": "cdict", "KPlain": "plain"}
+    return {c: (names[k], d) for c, k, d in table}
